@@ -81,7 +81,7 @@ def build_cases(chk, walks, thorough, only=None):
     reg = lib_seeded.registry()
     if only:
         keys = [k for k in keys if k in only]
-    nrand = 40 if thorough else 6
+    nrand = 120 if thorough else 6
     cases = []
     index = {k: n for n, k in enumerate(lib_seeded.entry_keys())}
     for ek in keys:
@@ -90,7 +90,7 @@ def build_cases(chk, walks, thorough, only=None):
         if slow and not thorough:
             hist = hist[::3]
         for k in range(nrand if not slow else max(2, nrand // 3)):
-            hist.append(("r%03d" % k, random_history(rng, rng.randint(6, 14))))
+            hist.append(("r%03d" % k, random_history(rng, rng.randint(6, 20 if thorough else 14))))
         for hid, ops in hist:
             tr = "e%02d/%s" % (index[ek], hid)     # short ids: TLC wraps long PrintT tuples over several lines
             cases.append({"id": "C16/" + tr, "tr": tr, "entry": ek, "fn": reg[ek]["fn"], "opt": reg[ek]["opt"], "ops": ops,
@@ -254,7 +254,7 @@ def run(chk, opts):
     chk.rule = ("every edge of the labelled state graph of RngStreams (%d states, %d transitions, <=%d ops; %d covering walks) plus "
                 "%d random histories per entry point (seed %d), each replayed on each of %d seed-accepting entry point variants "
                 "(%d public functions/classes) with per-trace random real seeds; a case = one trace; distinct = distinct (entry, op, "
-                "seeding) steps observed" % (len(edges), nedges, 4 if thorough else 3, len(walks), 40 if thorough else 6, chk.seed,
+                "seeding) steps observed" % (len(edges), nedges, 4 if thorough else 3, len(walks), 120 if thorough else 6, chk.seed,
                                              nent, len({c["fn"] for c in cases})))
     for e in events:
         if "ev" in e and e["ev"] != "Reset":
